@@ -92,7 +92,8 @@ def make_case(tier, seed, index):
             "dod": [-1, -2, 101, 102, 103, 255, 256, 65536, 70000, -70000, -128, 128, 1000],
             "eco_power": [-1, -2, 101, 102, 256, 1000, 70000, -70000, -100, 200],
             "eco_soc": [-1, -2, 101, 102, 256, 1000, 70000, -70000, -100, 200],
-            "unknown_id": [0],
+            # 0: an id that is nothing at all; n > 0: the id of a SENSOR that is not a setting, after that sensor was read
+            "unknown_id": [0, 1, 2, 3, 5, 8, 13, 21],
             # the raw register access 'modbus-<n>': register numbers that do not exist / values that do not fit a register
             "raw_register": [-1, -5, -65536, 65536, 65537, 99999, 70000, 1 << 20, (1 << 16) + 47000],
             "raw_value": [65536, 70000, -32769, -65536, 1 << 20, -(1 << 20), 99999],
@@ -104,6 +105,8 @@ def make_case(tier, seed, index):
         args = base + [-rnd.randrange(1, 70000) for _ in range(6)]
     if kind == "refused_id":
         args = base + [rnd.randrange(0, 200) for _ in range(4)]
+    if kind == "unknown_id":
+        args = base + [rnd.randrange(1, 300) for _ in range(6)]
     if kind == "raw_register":
         args = base + [rnd.choice([-rnd.randrange(1, 70000), 65536 + rnd.randrange(0, 200000)]) for _ in range(6)]
     if kind == "raw_value":
@@ -401,7 +404,16 @@ def run_invalid(case):
                 rec = await C.do_call(world, label, lambda: inv.write_setting("modbus-45000", a))
                 must_raise = True
             else:
-                rec = await C.do_call(world, label, lambda: inv.write_setting("no_such_setting", 1))
+                sid = "no_such_setting"
+                if a > 0:
+                    only_sensors = [x.id_ for x in inv.sensors() if x.id_ not in {y.id_ for y in inv.settings()}
+                                    and type(x).__name__ in ("Voltage", "Current", "Integer", "Power", "Temp", "Frequency")]
+                    if only_sensors:
+                        sid = only_sensors[a % len(only_sensors)]
+                        dev.label = None
+                        await C.do_call(world, "probe", lambda: inv.read_sensor(sid))
+                        dev.label = label
+                rec = await C.do_call(world, label, lambda: inv.write_setting(sid, 1))
                 must_raise = True
             dev.label = None
             n["calls"] += 1
